@@ -171,6 +171,8 @@ pub struct Run {
     pub caps: Vec<String>,
     pub extra: Map<String, Value>,
     pub threads: usize,
+    /// failures of the machinery itself (engine disagreement, ...): exit 2
+    pub machinery_errors: Vec<String>,
 }
 
 pub fn n_threads() -> usize {
@@ -196,6 +198,7 @@ impl Run {
             caps: vec![],
             extra: Map::new(),
             threads: n_threads(),
+            machinery_errors: vec![],
         }
     }
 
@@ -350,6 +353,10 @@ pub fn finish(mut run: Run, replayer: Replayer) -> i32 {
     };
     let mut exit = 0;
     let mut machinery_fail = false;
+    for e in &run.machinery_errors {
+        eprintln!("MACHINERY: {}", e);
+        machinery_fail = true;
+    }
 
     // sub-space completeness
     let mut exhaustive = run.caps.is_empty();
